@@ -314,6 +314,50 @@ def ob_keep_branch_lengths(tier, seed):
     return Ob("C02.keep_branch_lengths", "B", body, clause="root branch collapsed with lengths summed", funcs=FUNCS)
 
 
+def ob_date_origin():
+    """sampling dates are calendar dates up to the choice of origin: the same tree with branch lengths kept from the NEWICK string and dates
+    written as years (2018, 2019.5, ...), relative to the first sample, or relative to the LAST sample (<= 0, the largest 0) gives the same
+    node heights above the youngest tip and the same branch lengths"""
+    def body():
+        from torchtree.evolution.tree_model import ReparameterizedTimeTreeModel as R, TimeTreeModel as TT
+        n = 0
+        cases = [("((A:1,B:2):2,C:5);", {"A": 2018.0, "B": 2019.0, "C": 2020.0}, 1, [1.0, 2.0, 5.0, 2.0]),
+                 ("((A:1.5,B:1):1,(C:2,D:1.25):0.5);", {"A": 2019.5, "B": 2019.0, "C": 2020.0, "D": 2019.25}, 2, None)]
+        for newick, dates, nint, want_bl in cases:
+            results = {}
+            for origin in (0.0, 2000.0, max(dates.values()), min(dates.values()) - 3.0):
+                d = {k: v - origin for k, v in dates.items()}
+                for cls, kw in ((R, {"ratios": [0.5] * (nint), "root_height": [50.0]}), (TT, None)):
+                    if cls is R:
+                        spec = R.json_factory("tree", newick, d, keep_branch_lengths=True, **kw)
+                    else:
+                        spec = TT.json_factory("tree", newick, [1.0] * (nint + 1), d, keep_branch_lengths=True)
+                    m = cls.from_json(spec, {})
+                    results[(cls.__name__, origin)] = (m.node_heights.tolist(), m.branch_lengths().tolist())
+                    n += 1
+            for cname in ("ReparameterizedTimeTreeModel", "TimeTreeModel"):
+                ref = results[(cname, 0.0)]
+                if want_bl is not None and any(abs(a - b) > 1e-9 for a, b in zip(ref[1], want_bl)):
+                    raise Refuted("%s from %s with dates %s (keep_branch_lengths): branch lengths %s, the string says %s" % (cname, newick, dates, ref[1], want_bl),
+                                  witness={"newick": newick, "dates": dates}, confirmed=True, replay={"kind": "custom", "contract": "C02", "func": "replay_date_origin", "args": {}})
+                for (cn, origin), val in results.items():
+                    if cn == cname and any(abs(a - b) > 1e-9 for a, b in zip(val[0] + val[1], ref[0] + ref[1])):
+                        raise Refuted("%s from %s (keep_branch_lengths): with the dates written relative to %s the node heights / branch lengths are %s, with calendar years %s" % (
+                            cname, newick, origin, val, ref), witness={"newick": newick, "dates": dates, "origin": origin}, confirmed=True,
+                            replay={"kind": "custom", "contract": "C02", "func": "replay_date_origin", "args": {}})
+        return {"backend": "concrete", "cases": n, "bounded": "2 trees x 4 origins x 2 tree-model classes",
+                "statement": "node heights and branch lengths kept from the NEWICK string do not depend on the origin of the calendar (%d models)" % n}
+    return Ob("C02.date_origin[keep_branch_lengths]", "B", body, clause="invariance to the origin of the calendar dates (bounded)", funcs=FUNCS)
+
+
+def replay_date_origin(args):
+    try:
+        ob_date_origin().fn()
+    except Refuted as e:
+        return False, e.detail
+    return True, "held"
+
+
 def ob_datatype_consistency():
     """tip states vs tip partials with ambiguities treated as missing, at the level of the data-type tables (finite, exhaustive):
     partial(c, use_ambiguities=False) is the indicator of encoding(c), or all ones when encoding(c) is the unknown state"""
@@ -489,5 +533,6 @@ def obligations(tier, seed):
                                clause="tip states ≡ tip partials in rescaling mode, with a sample dimension", funcs=FUNCS, seed=seed))
     obs.append(ob_keep_branch_lengths(tier, seed))
     obs.append(ob_datatype_consistency())
+    obs.append(ob_date_origin())
     obs.append(ob_reroot_numeric(seed))
     return obs
